@@ -42,7 +42,7 @@ def make(mk, noisy, recorded=None, plateau=False):
     gen, extra = (PLATEAU_GEN[mk] if plateau else (mk, {}))
     if plateau:
         E = 3000.0
-    tr = synth.truth_params(gen, E=E, contact_point=CP_TRUE, baseline=0.0,
+    tr = synth.truth_params(gen, E=E, contact_point=CP_TRUE, baseline=4e-11,
                             **extra)
     return synth.make_curve(gen, tr, n_app=160, n_ret=140, x_start=1.0e-6,
                             depth=DEPTH, noise=(2e-11 if noisy else 0.0),
@@ -54,6 +54,15 @@ def run_fit(mk, noisy, seg, mode, cp0, k, recorded=None, fixed=()):
     idnt = make(mk, noisy, recorded, plateau=(mode == "plateau"))
     P = nmodel.models_available[mk].get_parameter_defaults()
     P["contact_point"].set(value=cp0)
+    if not recorded:
+        # start inside the convergence basin of *this* k (the modulus the
+        # optimiser has to find is E k^-p): the property is about the
+        # optimum, not about the optimiser's path from a far start
+        Etrue = 3000.0 if mode == "plateau" else \
+            {"hertz_para": 3000.0, "hertz_cone": 9000.0,
+             "hertz_pyr3s": 40000.0}[mk]
+        P["E"].set(value=1.2 * Etrue * k ** (-POWER[mk]))
+        P["baseline"].set(value=2e-11)
     if mode == "plateau" and mk == "hertz_para":
         P["R"].set(value=2e-6)
     for name in fixed:
@@ -143,9 +152,10 @@ def case_fn(case):
         # on round-off, for every k; only the exact per-pass checks apply
         return out, ("per-pass-only", len(pk))
     tol = 1e-4 if (noisy or rec) else 1e-8
-    if mode == "plateau" and not noisy:
-        # the fitted model differs from the generating one: a non-zero
-        # residual optimum is located to optimiser precision only
+    if (mode == "plateau" and not noisy) or (fixed and not noisy):
+        # the fitted model differs from the generating one (or a parameter
+        # is held at a wrong value): a non-zero residual optimum is located
+        # to optimiser precision only
         tol = 1e-5
     q1, qk = f1["params_fitted"], fk["params_fitted"]
     dcp = abs(qk["contact_point"].value - q1["contact_point"].value) / depth
